@@ -5,13 +5,14 @@ counterexample); the behaviour as a whole is NOT decided.  See DESIGN.md section
 P = {
 "C01": dict(
   decided={
+    "C22.h": "ws modifier: by evaluation over strings with and without escapes, the rule's whitespace set is exactly the characters the modifier names (newline iff \\n, carriage return iff \\r, tab iff \\t, blank iff a blank)",
     "C01.i": "attribute type over repeated assignments: the type recorded by the first assignment and the type later assignments are compared with are the same expression",
     "C01.a": "operator dispatch table (repeat operators, assignment operators, syntactic predicates) -> Arpeggio class / multiplicity agrees with docs and with the reader in process_node",
     "C01.b": "repetition-modifier keys written by visit_repeat_modifiers are consumed by both readers; modifiers on ?/=/?= are rejected",
     "C01.c": "rule modifiers (ws/skipws) are installed only on expressions whose _parse honours them (Sequence subclasses)",
     "C01.d": "model parser wraps the start rule with EOF and every parser option of the metamodel is forwarded under its own name",
     "C01.e": "attribute default table of _init_obj_attrs agrees with the documented defaults; python_type covers the base types",
-    "C01.f": "visitor methods subscript/iterate only non-terminal nodes and every visit_* names a grammar rule",
+    "C23.c": "(shared with C23) visitor methods subscript/iterate only non-terminal nodes",
     "C01.h": "a suppressed rule reference is wrapped whether or not the referenced rule still had to be resolved",
     "C01.g": "use_regexp_group: group 1 is the value iff the option is on and the *pattern* has exactly one group (not a property of the individual match)",
   },
@@ -163,7 +164,6 @@ P = {
   technique="obligation ledger over normal + exceptional CFG exits through the call graph"),
 "C15": dict(
   decided={
-    "C15.a": "obligation O1 (instrumentation) discharged on every failure exit",
     "C15.b": "obligation O2: per-object attribute storage on user classes released on every failure exit",
     "C15.c": "handlers that release the per-object storage are catch-all",
     "C15.d": "_release_user_obj_attrs has no exit or guard depending on state other than the ids recorded at creation",
@@ -236,7 +236,8 @@ P = {
   technique="regex category algebra + guard analysis on the RegExMatch construction"),
 "C22": dict(
   decided={
-    "C22.a": "rule modifiers are installed on an expression that honours them (same rule as C01.c)",
+    "C01.c": "(shared with C01) rule modifiers (ws/skipws) are installed only on expressions whose _parse honours them",
+    "C22.h": "ws modifier: by evaluation over strings with and without escapes, the rule's whitespace set is exactly the characters the modifier names (newline iff \\n, carriage return iff \\r, tab iff \\t, blank iff a blank)",
     "C22.b": "the Comment rule is looked up after all rules are visited and handed to the parser; ws escape table in visit_rule_params",
     "C22.d": "every rule parameter given in the grammar reaches the parameter table (no skip path in visit_rule_params)",
     "C22.e": "every root wrapper built while rule parameters may be present receives them",
@@ -251,7 +252,7 @@ P = {
     "C23.a": "every raise reachable from metamodel_from_str raises a TextXError subclass; asserts are listed",
     "C23.b": "library raisers (codecs.decode, re.compile, int, float, open) are converted or guarded",
     "C23.c": "error handlers do not crash (no subscript of a terminal node)",
-    "C23.d": "kind errors: possibly-bool / possibly-RuleCrossRef values are not used as containers / expression nodes",
+    "C23.d": "kind errors in rule parameters: evaluated over {skipws, ws, split, other} x {True, False, strings}, visit_rule_params never fails with a Python-level error (a bool used as a string); it raises a TextX error or returns the table",
     "C23.e": "recursion along rule cross-references carries a cycle check",
     "C23.f": "the handler around the compilation of a user regex is `except Exception` or wider",
     "C23.g": "a dict.get() result is not used as a container/object without a None test",
